@@ -435,6 +435,8 @@ func (m *Machine) nowTerm() *sym.Term {
 	if m.cfg.Clock == "advancing" || m.clock == nil {
 		t := sym.Var(m.freshName("now"), sym.BV(64))
 		m.nondets = append(m.nondets, nondetRec{Tag: "time.Now", Kind: "int64", T: t})
+		m.sol.Declare(t)
+		m.pin(t, "time.Now", "int64")
 		// after 2001 and before 2200: a wall clock, never negative or near overflow
 		m.assertPC(sym.SLe(sym.BVConst(64, 1000000000000000000), t))
 		m.assertPC(sym.SLe(t, sym.BVConst(64, 7000000000000000000)))
